@@ -14,7 +14,12 @@
   the specification of "the pause exceeds the break duration" is stated over
   exact rationals (`ratArith`, `Rat` of core Lean).  Every C19 theorem that does
   not look inside the comparison holds for every arithmetic; the two are linked
-  by `CompareAgrees` / `TimesExact` (end of the time section).
+  by the decidable per-document predicate `CompareAgrees` (`CodeCompareAgrees`
+  for the code's doubles against exact rationals).  `TimesExact` is a decidable
+  class of documents for which `CodeCompareAgrees` is EXPECTED to hold; that
+  implication (`TimesExactSuffices`) is an OPEN statement, not proved here and
+  not used by any theorem except the clearly marked corollaries of
+  `PyndlProps/C19.lean` (end of the time section).
 -/
 import PyndlModel.Ndl
 
@@ -196,7 +201,7 @@ def floatAccepts (s : Str) : Bool :=
 def floatRejects (s : Str) : Bool := s.all (fun c => c.toNat < 128) && !floatAccepts s
 
 /-- bound on a time field under which all the double arithmetic on whole numbers
-    is exact and the rounding argument of `FloatCompareAgrees` applies -/
+    is exact and the rounding argument of `TimesExactSuffices` applies -/
 def fieldBound : Nat := 16777216   -- 2^24
 
 /-- **the literal domain.** A time value on which the executable arithmetics say
@@ -298,10 +303,16 @@ end Generic
 
 /-! ## where the double and the rational comparison agree
 
-`harness/run_C19.py` (`margin_ok`, `times_ok`) generates only documents in which
-every pause that could be compared with the break duration is at least one
-frame away from it, or lies between two whole-second times.  `TimesExact` is
-that guarantee as a decidable predicate; `CompareAgrees` is what it is for. -/
+`CompareAgrees A B d` is the decidable statement "on document `d` the
+arithmetics `A` and `B` accept the same time values and order every pair of
+times the reader can compare the same way".  The driver evaluates it (for the
+code's doubles against exact rationals) on EVERY document of every C19 test and
+returns it as `compare_agrees`, next to `times_exact` (= `TimesExact`), so for
+every generated document it is a recorded fact whether the exact-time theorems
+of `PyndlProps/C19.lean` apply to it.  `harness/run_C19.py` does NOT filter its
+documents any more: documents outside `TimesExact` and outside `CompareAgrees`
+(a pause within one frame of the break duration) are generated and compared
+with the model over doubles as well. -/
 
 /-- every `<time>` tag of the document, in document order (also those of
     sentences that are skipped: the harness does not look at the words) -/
@@ -319,11 +330,21 @@ def pairedTimes (A : Arith τ) (B : Arith σ) (sel : TimeTag → Bool) (d : Docu
       | _, _ => none
     else none)
 
-/-- **CompareAgrees.** On this document the two arithmetics accept the same time
-    values and give the same answer to every paragraph test that can come up:
-    `cur` the time of a tag that is not an `E` tag, `last` the time of an `E`
-    tag or the initial `0.0`.  Decidable; for closed documents the kernel
-    evaluates it (`decide +kernel`), also for `A = floatArith …`. -/
+/-- **CompareAgrees.** On this document the two arithmetics (a) accept the same
+    time values and (b) give the same answer to every paragraph test that can
+    come up: `cur` the time of a tag that is not an `E` tag, `last` the time of
+    an `E` tag or the initial `0.0`.  Decidable; for closed documents the kernel
+    evaluates it (`decide +kernel`), also for `A = floatArith …`; the driver
+    evaluates it on every request.
+
+    For `A = floatArith …`, `B = ratArith …` clause (a) holds for EVERY document
+    (both read the fields with `parseNat`:
+    `PyndlProofs.Corpus.parseTime_float_rat_toBool`), so there `CompareAgrees`
+    is exactly clause (b): "the doubles and the rationals order every pair of
+    times the reader can compare the same way"
+    (`PyndlProofs.Corpus.codeCompareAgrees_iff`).  It is what is NEEDED for the
+    two runs to coincide, stated on the comparison itself — not a consequence of
+    something simpler that is proved here. -/
 def CompareAgrees (A : Arith τ) (B : Arith σ) (d : Document) : Prop :=
   (∀ t ∈ allTags d, (parseTime A t.value).toBool = (parseTime B t.value).toBool) ∧
   ∀ a ∈ pairedTimes A B (fun t => !isE t) d,
@@ -351,7 +372,7 @@ def ratTimes (fps : Nat) (sel : TimeTag → Bool) (d : Document) : List Rat :=
     else none)
 
 /-- the parameters are in the range for which the rounding argument of
-    `FloatCompareAgrees` is made: `1 ≤ fps ≤ 1024`, `0 ≤ brk < 2^24` with a
+    `TimesExactSuffices` is made: `1 ≤ fps ≤ 1024`, `0 ≤ brk < 2^24` with a
     denominator below 2^24 (so `floatOfRat brk` is one correctly rounded
     division and `brk`, unless an integer, is at least 2^-24 away from every
     integer).  The code has `fps = 30`, `brk = 5`; the harness also uses the
@@ -361,10 +382,12 @@ def paramsOk (fps : Nat) (brk : Rat) : Bool :=
     decide (brk.den < fieldBound)
 
 /-- **TimesExact** (`times_ok` of `harness/run_C19.py`, plus the literal domain
-    and the parameter range the generator stays in): the parameters satisfy
-    `paramsOk`, every time value is in `LitDomain`, and every non-`E` time `a`
-    and every `E` time or `0` `e` of the document satisfy `marginOk`.  This is
-    what every generated document satisfies. -/
+    and a parameter range): the parameters satisfy `paramsOk`, every time value
+    is in `LitDomain`, and every non-`E` time `a` and every `E` time or `0` `e`
+    of the document satisfy `marginOk`.  Decidable.  NOT every generated document
+    satisfies it (the generator does not filter); the driver reports it per
+    document as `times_exact`.  No theorem has it as its only link between the
+    doubles and the rationals: see `TimesExactSuffices`. -/
 def TimesExact (fps : Nat) (brk : Rat) (d : Document) : Prop :=
   paramsOk fps brk = true ∧
   (∀ t ∈ allTags d, LitDomain t.value = true) ∧
@@ -373,15 +396,43 @@ def TimesExact (fps : Nat) (brk : Rat) (d : Document) : Prop :=
 instance (fps : Nat) (brk : Rat) (d : Document) : Decidable (TimesExact fps brk d) := by
   unfold TimesExact; infer_instance
 
-/-- **FloatCompareAgrees — NAMED ASSUMPTION about IEEE-754 arithmetic** (not
-    provable here: Lean's `Float` operations are opaque; the kernel evaluates
-    them on closed terms only, which is how the instances in
-    `PyndlProps/C19.lean` are proved).  For this document: IF it satisfies
-    `TimesExact` THEN the double comparison of the code and the rational
-    comparison of the specification agree on it.
+/-- **CodeCompareAgrees**: `CompareAgrees` for the arithmetic of the code (IEEE
+    doubles, break duration `floatOfRat brk`) against the arithmetic of the
+    specification (exact rationals).  THE hypothesis of the exact-time theorems
+    of C19 (`corpus_eq`, `not_found_listed`, `corpus_error_prefix`,
+    `clean_document_code`): a decidable property of the document, evaluated by
+    the kernel in the examples and by the driver on every generated document
+    (`compare_agrees`). -/
+abbrev CodeCompareAgrees (fps : Nat) (brk : Rat) (d : Document) : Prop :=
+  CompareAgrees (floatArith fps (floatOfRat brk)) (ratArith fps brk) d
 
-    Why `TimesExact` implies agreement mathematically (`brkF = floatOfRat brk`
-    is the double nearest to `brk`; by `paramsOk`, `|brkF − brk| ≤ 2^-29`):
+/-- **TimesExactSuffices — OPEN STATEMENT about IEEE-754 arithmetic (NOT proved;
+    a hypothesis of the corollaries `*_of_times_exact` in `PyndlProps/C19.lean`
+    only).**  Every document satisfying `TimesExact` satisfies
+    `CodeCompareAgrees`.
+
+    (Before the second review this implication was folded into a per-document
+    "named assumption" `FloatCompareAgrees d := TimesExact d → CompareAgrees d`
+    that was a hypothesis of the main theorems next to `TimesExact d`; the two
+    together are just `CompareAgrees d`, so `TimesExact` did no formal work
+    there.  The main theorems now take `CodeCompareAgrees` itself.)
+
+    Status.  Lean 4.33's `Float` is NOT opaque: `Float.add a b =
+    ⟨a.toModel + b.toModel⟩` over the bit-level `Float.Model` (pack / unpack of
+    `UInt64`, `UnpackedFloat.round`, …, `Init/Data/Float/Model`), which the
+    kernel evaluates on closed terms (this is how the instances in
+    `PyndlProps/C19.lean` are proved) and about which statements for ALL inputs
+    can in principle be proved.  The model ships with three lemmas
+    (`unpackMantissa_packComponents`, `unpackExponent_packComponents`,
+    `valid_pack`) and the explicit note that there will be no others; a proof of
+    this statement — even of its whole-second case — needs a theory of
+    `pack`/`unpack` round trips, `Nat.log2`, `shiftToExponent` and `round` on
+    exactly representable values, for `+`, `-`, `*`, `/` and `<`, which is not
+    developed here (see `PyndlProofs/Corpus.lean`, section "what is proved
+    about `CodeCompareAgrees`", for the parts that ARE proved).
+
+    Why it is expected to hold (`brkF = floatOfRat brk` is the double nearest
+    to `brk`; by `paramsOk`, `|brkF − brk| ≤ 2^-29`):
     * all four fields are `< 2^24` (`LitDomain`), so `h*60*60`, `m*60` and
       their sum with `s` are integers `< 2^36`, computed exactly; only `f/fps`
       and the last `+` can round, each with relative error `≤ 2^-53`: a
@@ -395,14 +446,15 @@ instance (fps : Nat) (brk : Rat) (d : Document) : Decidable (TimesExact fps brk 
     * margin case: the exact difference is at least `1/fps ≥ 2^-10` away from
       `brk`, the computed one within `2^-14` of it and `brkF` within `2^-29` of
       `brk`: the two comparisons cannot come out differently.
-    The documents of the 152 pairs found by the review (e.g. `E 00:00:03,08`,
-    `S 00:00:08,08`) violate `TimesExact` (pause exactly 5 s, fractional times)
-    and `CompareAgrees` (see `C19.boundary_pair`). -/
-def FloatCompareAgrees (fps : Nat) (brk : Rat) (d : Document) : Prop :=
-  TimesExact fps brk d → CompareAgrees (floatArith fps (floatOfRat brk)) (ratArith fps brk) d
-
-instance (fps : Nat) (brk : Rat) (d : Document) : Decidable (FloatCompareAgrees fps brk d) := by
-  unfold FloatCompareAgrees; infer_instance
+    Evidence only: the driver reports `times_exact` and `compare_agrees` for
+    every generated document, so a document with `times_exact ∧ ¬compare_agrees`
+    (a counterexample to this statement) would be seen by the harness; the
+    second review's sweep of 6000 two-sentence documents inside `TimesExact`
+    found none.  The documents of the 152 pairs found by the first review (e.g.
+    `E 00:00:03,08`, `S 00:00:08,08`) violate `TimesExact` (pause exactly 5 s,
+    fractional times) and `CompareAgrees` (see `C19.boundary_pair`). -/
+def TimesExactSuffices (fps : Nat) (brk : Rat) : Prop :=
+  ∀ d : Document, TimesExact fps brk d → CodeCompareAgrees fps brk d
 
 /-! ## the per-file job (corpus.py:106-131) -/
 
